@@ -2,6 +2,7 @@ package props
 
 import (
 	"fmt"
+	"strings"
 
 	"verifsim/core"
 	"verifsim/wire"
@@ -17,7 +18,7 @@ func init() {
 			"standard transport only; netpoll transport not simulated",
 			"ground truth is the generator's structure, serialised by the harness's own encoder",
 		},
-		RequiredProbes: []string{"fragments", "pipelined", "chunked", "expect100", "nearmiss", "stream", "big-body"},
+		RequiredProbes: []string{"fragments", "pipelined", "chunked", "expect100", "nearmiss", "stream", "big-body", "crnear-accepted"},
 	}
 }
 
@@ -66,12 +67,40 @@ func (r *echoRun) checkEcho(prop string, reqs []*GenReq, norm bool) {
 	case core.RunViolation:
 		return
 	}
+	// a request carrying a framing name with a control byte in it is malformed: the server may
+	// reject it (one 4xx, then close) - everything before it must still be right
+	for i, g := range reqs {
+		if !g.Malformed {
+			continue
+		}
+		if len(r.echo.Seen) == i && len(r.cl.Resps) == i+1 && r.cl.Resps[i].Status/100 == 4 && r.conn.A.IsClosed() && r.cl.ParseErr == nil {
+			ep.Probe("crnear-rejected")
+			reqs = reqs[:i]
+			r.cl.Resps = r.cl.Resps[:i]
+		}
+		break
+	}
 	if len(r.echo.Seen) != len(reqs) {
 		ep.Fail(prop+".count", "%d handler invocations for %d requests (serve err=%v, responses %s, parse err=%v); requests: %v", len(r.echo.Seen), len(reqs), r.conn.Err, respSummary(r.cl), r.cl.ParseErr, describeReqs(reqs))
 		return
 	}
 	for i, g := range reqs {
 		want := ExpectObs(g, norm)
+		if g.Malformed {
+			// if accepted, the odd line may show up as an ordinary field under any spelling: compare without it
+			strip := func(hs []wire.Header) []wire.Header {
+				var out []wire.Header
+				for _, h := range hs {
+					if !strings.ContainsAny(h.K, "\r") {
+						out = append(out, h)
+					}
+				}
+				return out
+			}
+			want.Headers = strip(want.Headers)
+			r.echo.Seen[i].Headers = strip(r.echo.Seen[i].Headers)
+			ep.Probe("crnear-accepted")
+		}
 		if d := DiffObs(r.echo.Seen[i], want); d != "" {
 			// distinguish order problems from content problems
 			for j, g2 := range reqs {
@@ -116,7 +145,7 @@ func RunC01(ep *core.Episode) {
 	o.DisableNorm = tp.Chance("nonorm", 1, 4)
 	r := startEcho(ep, o)
 	n := 1 + tp.Weighted("nreq", []int{2, 3, 3, 2, 1, 1})
-	gopt := GenOpt{NearMiss: true, Expect100: true, HTTP10: true, BigBodies: true, Hostile: true, ChunkExt: ep.Param("chunkext") != "off"}
+	gopt := GenOpt{NearMiss: true, CRNear: true, Expect100: true, HTTP10: true, BigBodies: true, Hostile: true, ChunkExt: ep.Param("chunkext") != "off"}
 	var reqs []*GenReq
 	for i := 0; i < n; i++ {
 		g := GenRequest(tp, i, i == n-1, gopt)
